@@ -3,7 +3,56 @@ use vstd::prelude::*;
 //@@SPEC macros.rs@@
 verus! {
 #[derive(Clone, Copy, PartialEq, Eq, Structural)]
-pub struct Predicate { pub code: u64 }
+pub struct DomainId { pub id: u32 }
+#[derive(Clone, Copy, PartialEq, Eq, Structural)]
+pub enum Predicate {
+    LowerBound { domain_id: DomainId, lower_bound: i32 },
+    UpperBound { domain_id: DomainId, upper_bound: i32 },
+    NotEqual { domain_id: DomainId, not_equal_constant: i32 },
+    Equal { domain_id: DomainId, equality_constant: i32 },
+}
+// the predicate as a condition on the value of its variable
+pub open spec fn sat(p: Predicate, v: int) -> bool {
+    match p {
+        Predicate::LowerBound { lower_bound, .. } => v >= lower_bound,
+        Predicate::UpperBound { upper_bound, .. } => v <= upper_bound,
+        Predicate::NotEqual { not_equal_constant, .. } => v != not_equal_constant,
+        Predicate::Equal { equality_constant, .. } => v == equality_constant,
+    }
+}
+pub open spec fn dom_of(p: Predicate) -> DomainId {
+    match p { Predicate::LowerBound { domain_id, .. } => domain_id, Predicate::UpperBound { domain_id, .. } => domain_id, Predicate::NotEqual { domain_id, .. } => domain_id, Predicate::Equal { domain_id, .. } => domain_id }
+}
+pub struct EmptyDomain;
+#[derive(Clone, Copy)]
+pub struct PropagatorId(pub u32);
+#[derive(Clone, Copy)]
+pub struct ReasonRef(pub u32);
+// the store: the set of values every variable can still take
+pub struct Assignments { pub vals: Ghost<Map<int, Set<int>>> }
+pub open spec fn cut(s: Set<int>, p: Predicate) -> Set<int> { s.filter(|v: int| sat(p, v)) }
+impl Assignments {
+    pub open spec fn dom(&self, d: DomainId) -> Set<int> { self.vals@[d.id as int] }
+    // the store after posting p: the domain of p's variable is cut by p, the others stay
+    pub open spec fn posted(&self, after: &Assignments, p: Predicate) -> bool {
+        after.vals@ == self.vals@.insert(dom_of(p).id as int, cut(self.dom(dom_of(p)), p))
+    }
+    #[verifier::external_body]
+    pub fn is_value_in_domain(&self, domain_id: DomainId, value: i32) -> (r: bool) ensures r == self.dom(domain_id).contains(value as int) { unimplemented!() }
+    #[verifier::external_body]
+    pub fn is_domain_assigned(&self, domain_id: &DomainId) -> (r: bool) ensures r == (exists|v: int| self.dom(*domain_id) == set![v]) { unimplemented!() }
+    // unit assignments: the domain is intersected with [x == v]; EmptyDomain exactly when v is not in the domain
+    #[verifier::external_body]
+    pub fn make_assignment(&mut self, domain_id: DomainId, assigned_value: i32, reason: Option<ReasonRef>) -> (r: Result<(), EmptyDomain>)
+        ensures r is Ok <==> old(self).dom(domain_id).contains(assigned_value as int),
+                r is Ok ==> old(self).posted(final(self), Predicate::Equal { domain_id, equality_constant: assigned_value }),
+    { unimplemented!() }
+}
+pub struct ReasonStore { pub x: u8 }
+impl ReasonStore {
+    #[verifier::external_body]
+    pub fn push(&mut self, propagator: PropagatorId, reason: StoredReason) -> (r: ReasonRef) { unimplemented!() }
+}
 #[derive(Clone, Copy)]
 pub struct Literal { pub id: u32 }
 pub uninterp spec fn true_pred(l: Literal) -> Predicate;
@@ -31,9 +80,30 @@ pub open spec fn stored_meaning(r: StoredReason, lazy: spec_fn(u64) -> Seq<Predi
         StoredReason::ReifiedLazy(l, code) => lazy(code).push(true_pred(l)),
     }
 }
-pub struct PropagationContextMut<'a> { pub reification_literal: Option<Literal>, pub ph: core::marker::PhantomData<&'a u8> }
+// @C01 @C02 what posting a predicate means: after Ok every value left for the variable satisfies the predicate and nothing else was lost;
+// an error is only reported when no value of the domain satisfies it
+pub open spec fn post_ok(before: &Assignments, after: &Assignments, p: Predicate, r: Result<(), EmptyDomain>) -> bool {
+    &&& r is Ok ==> before.posted(after, p)
+    &&& r is Err ==> cut(before.dom(dom_of(p)), p) =~= Set::<int>::empty()
+}
+pub struct PropagationContextMut<'a> { pub assignments: &'a mut Assignments, pub reason_store: &'a mut ReasonStore, pub propagator_id: PropagatorId, pub reification_literal: Option<Literal> }
+
 impl<'a> PropagationContextMut<'a> {
+    // units views / assignments: the three other kinds of predicate, posted through the variable
+    #[verifier::external_body]
+    pub fn set_lower_bound<R: Into<Reason>>(&mut self, var: &DomainId, bound: i32, reason: R) -> (r: Result<(), EmptyDomain>)
+        ensures post_ok(old(self).assignments, final(self).assignments, Predicate::LowerBound { domain_id: *var, lower_bound: bound }, r), final(self).reification_literal == old(self).reification_literal
+    { unimplemented!() }
+    #[verifier::external_body]
+    pub fn set_upper_bound<R: Into<Reason>>(&mut self, var: &DomainId, bound: i32, reason: R) -> (r: Result<(), EmptyDomain>)
+        ensures post_ok(old(self).assignments, final(self).assignments, Predicate::UpperBound { domain_id: *var, upper_bound: bound }, r), final(self).reification_literal == old(self).reification_literal
+    { unimplemented!() }
+    #[verifier::external_body]
+    pub fn remove<R: Into<Reason>>(&mut self, var: &DomainId, value: i32, reason: R) -> (r: Result<(), EmptyDomain>)
+        ensures post_ok(old(self).assignments, final(self).assignments, Predicate::NotEqual { domain_id: *var, not_equal_constant: value }, r), final(self).reification_literal == old(self).reification_literal
+    { unimplemented!() }
 //@@EXTRACT ctx@@
+//@@EXTRACT ctx2@@
 }
 } // verus!
 fn main() {}
